@@ -22,7 +22,7 @@ CLAIMED = {
     tech=TECH + "; effect-log (ghost) contract per loop iteration, nondeterministic externals"),
   'C04': dict(
     text="writeForever is verified from source under a rely that lets the storing thread act and the stop arrive between any two atomic steps of the writer (including inside time.sleep): on return nothing accepted before the stop is left behind unless the final pass was cut short by a logged backend failure; shutdownModifyUpdateSpeed's postcondition and the shutdown wiring are obligations.",
-    note="A-TWISTED-DEFER (running turns False once, the reactor thread is quiescent afterwards, before-shutdown triggers run first), contract of writeCachedDataPoints (normal return = nothing eligible left) from the iteration unit, timesorted 'eligible' from C17; ghost flags running/dirty abstract the cache contents; A-ENGINE, A-SMT",
+    note="A-TWISTED-DEFER (running turns False once, the reactor thread is quiescent afterwards, before-shutdown triggers run first), contract of writeCachedDataPoints (normal return = nothing eligible left) from the iteration unit; that 'nothing eligible' means 'nothing cached' at lag 0 is discharged for the three queue generators (clauses shared with C17: None only for timesorted with a lag set and nothing older than the lag), for max / bucketmax / random it is the C17 choose_item contract; ghost flags running/dirty abstract the cache contents; A-ENGINE, A-SMT",
     tech=TECH + "; ghost state + rely/guarantee over the stop event"),
   'C05': dict(
     text="ConsistentHashRing.get_nodes (ring walk with a quantified loop invariant and the pigeonhole exit argument), ConsistentHashingRouter.getDestinations (both branches, loop contracts with ghost first-occurrence witnesses), FastHashRing.get_nodes and _update_nodes are verified from source for every ring, node set, key, replication factor and DIVERSE_REPLICAS value: the result is duplicate-free, consists only of configured destinations with their configured port, has exactly min(RF, eligible) elements and no two share a server when diverse.",
@@ -30,18 +30,18 @@ CLAIMED = {
     tech=TECH + "; inductive loop invariants over a symbolic ring, ghost witnesses"),
   'C06': dict(
     text="The hash functions are verified from source against a specification pinned in the contract (FNV-1a loop invariant over 32-bit vectors with the published offset basis and prime; carbonHash composes fold / md5-prefix exactly as the published algorithm); get_node is proved to be the bisect lookup with wrap-around; get_nodes is proved to yield the nodes in order of their first entry along the cyclic walk (the carrying contract of minimal disruption); remove_node is proved to delete exactly the node's entries and keep all others in order; minimal disruption is a lemma over these contracts. Ring construction (add_node), compatibility with the published algorithm over ALL 65536 positions, and history independence are decided by a bounded native comparison with an independent specification; history independence is a recorded known finding when replica positions collide.",
-    note="add_node / __init__ are not under a discharged contract (bounded comparison with /verif/spec/ring_spec.py only, labelled bounded); md5, UTF-8, int(.,16), bisect_left and comprehension filtering are assumed library contracts; known finding D10 (collision-bumped entries survive removal) with native witness; A-ENGINE, A-SMT",
+    note="add_node is under a discharged per-call contract (bisect.insort's library contract assumed); that __init__'s loop of add_node calls, and whole join / leave histories, yield the published ring is bounded (comparison with /verif/spec/ring_spec.py on the same history, labelled bounded); md5, UTF-8, int(.,16), bisect_left and comprehension filtering are assumed library contracts; known finding D10 (collision-bumped entries survive removal) with native witness; A-ENGINE, A-SMT",
     tech=TECH + "; bit-vector loop invariant, pinned spec functions, lemma over contracts; bounded native comparison for ring construction and history independence"),
   'C07': dict(
     text="Every queue operation of the relay client (enqueue, enqueue_from_left, takeSomeFromQueue with a loop invariant, sendDatapoint, sendHighPriorityDatapoint, scheduleSend, the protocol's sendQueued / sendDatapointsNow, checkQueue, the two queue callbacks, destinationDown with a per-item re-injection contract) is verified from source against a whole-view contract over the queue as a sequence: arrivals append (self-metrics prepend), a send writes exactly the prefix of length min(batch, |queue|) and leaves the rest, a drop happens only without room below the hard limit and is counted, the limit is never exceeded by normal items, a removed destination re-injects every item in order; no AlreadyCalledError can occur.",
-    note="A-TWISTED-DEFER (Deferred/callLater semantics modelled); single reactor thread; the history statement (accepted == written ++ queue) is the induction over events of the per-operation view equations (meta-step); re-injection does not re-enter the drained queue (router no longer returns the destination); CarbonClientManager, FakeClientFactory, SSL set-up, ratio reset not under contract; A-ENGINE, A-SMT",
+    note="A-TWISTED-DEFER (Deferred/callLater semantics modelled); single reactor thread; the history statement (accepted == written ++ queue) is the induction over events of the per-operation view equations (meta-step); re-injection does not re-enter the drained queue (router no longer returns the destination); CarbonClientManager and FakeClientFactory are bounded only (replay/manager_native.py: the real manager, router and pipeline over event sequences), SSL set-up not under contract; connection-quality resets are under contract with an arbitrary monitor verdict; A-ENGINE, A-SMT",
     tech=TECH + "; sequence-view contracts per operation, loop invariant for the batching generator"),
   'C08': dict(
     text="MetricBuffer.input is verified to append the value to the buffer of the aligned interval and nothing else; compute_value (both loops under invariants over a snapshot) to emit exactly once, for exactly the intervals that received data since their last emission, the uninterpreted rule function of exactly the values buffered for that interval, to delete only buffers that were already emitted (age rule, then the size trim that leaves at most MAX_AGGREGATION_INTERVALS + 2), and to release an idle series; AggregationProcessor.process to feed each matching rule's buffer exactly once with the same datapoint and to forward the unchanged datapoint exactly when FORWARD_ALL is on and no rule maps the metric to itself; get_aggregate_metric to return the uncached result whatever the cache holds (memo invariant, expiring entries included); avg / count against their definitions. The pattern-language clause is decided only by a bounded stand-in on the real build_regex.",
     note="integer timestamps; aggregation function, regex match and template interpolation uninterpreted; the pattern clause (Python re semantics) is bounded, labelled bounded, not counted as proved; percentile only range-checked; LoopingCall scheduling, RuleManager file parsing, run_pipeline not under contract; D12 (trailing newline) found by the stand-in and fixed; A-CLOCK; A-ENGINE, A-SMT",
     tech=TECH + "; loop invariants over a snapshot of the interval map, effect-log contracts per iteration; bounded native enumeration for the regex clause"),
   'C09': dict(
-    text="Back-pressure release is verified as a safety invariant at every handler exit / atomic step. Cache side (two threads, rely/guarantee): cacheTooFull implies size >= low watermark outside the window between pop's lock release and the return of _check_available_space; store only raises the flag at >= MAX, pop is always followed by the check, the check restores the invariant under interference. Relay side: queueFull.called implies |queue| >= low watermark and queueHasSpace is armed, preserved by sendDatapoint, sendQueued, resumeProducing, the callbacks. Receivers: connectionMade pauses iff receivers are paused and registers for both events; wiring in service.py/events.py is a syntactic obligation. Two genuine defects are recorded as known findings with native witnesses (D7, D8).",
+    text="Back-pressure release is verified as a safety invariant at every handler exit / atomic step. Cache side (two threads, rely/guarantee): cacheTooFull implies size >= low watermark outside the window between pop's lock release and the return of _check_available_space; store only raises the flag at >= MAX, pop is always followed by the check, the check restores the invariant under interference. Relay side: queueFull.called implies |queue| >= low watermark and queueHasSpace is armed, preserved by sendDatapoint, sendQueued, resumeProducing, the callbacks; destinationUp releases the pauses held for a destination outside the router (last one gone, or dropped while full). Receivers: connectionMade pauses iff receivers are paused and registers for both events; wiring in service.py/events.py is a syntactic obligation. Two genuine defects are recorded as known findings with native witnesses (D7, D8).",
     note="liveness is reduced to 'an outstanding pause has its release condition armed'; that the writer keeps draining / timers fire is assumed; A-GIL, A-THREADS for the cache side, A-TWISTED-DEFER for the relay side; D7 (resume fired by the writer thread inside connectionMade) and D8 (destination dropped while full) are known findings, their obligations are excluded from the discharged count while the native witnesses still fail; A-ENGINE, A-SMT",
     tech=TECH + "; invariants at handler exits, rely/guarantee for the cache side"),
   'C10': dict(
